@@ -290,13 +290,17 @@ let si_fault_of (s : string) : si_fault =
   | "badmarker" -> SfBadMarker | "badredis" -> SfBadRedis
   | _ -> failwith ("startcfg: unknown fault " ^ s)
 
-let si_item_of (it : string) : si_kind * si_fault option =
-  let body, fault = match String.index_opt it '!' with
-    | Some i -> String.sub it 0 i, Some (String.sub it (i + 1) (String.length it - i - 1))
-    | None -> it, None in
-  let comp, kind = match String.index_opt body ':' with
-    | Some i -> String.sub body 0 i, String.sub body (i + 1) (String.length body - i - 1)
-    | None -> body, "" in
+(* item: <comp>[:<kind>][+rp][@client][!fault] -> (kind, fault, explicit so_reuseport, a client is attached) *)
+let si_item_of (it : string) : (si_kind * si_fault option) * (bool * bool) =
+  let cut c str = match String.index_opt str c with
+    | Some i -> String.sub str 0 i, Some (String.sub str (i + 1) (String.length str - i - 1))
+    | None -> str, None in
+  let body, fault = cut '!' it in
+  let body, client = cut '@' body in
+  let n = String.length body in
+  let rp = n >= 3 && String.sub body (n - 3) 3 = "+rp" in
+  let body = if rp then String.sub body 0 (n - 3) else body in
+  let comp, kind = match cut ':' body with (c, Some k) -> c, k | (c, None) -> c, "" in
   let has sub = let n = String.length sub and m = String.length kind in
     let rec go i = i + n <= m && (String.sub kind i n = sub || go (i + 1)) in go 0 in
   let k = match comp with
@@ -307,26 +311,40 @@ let si_item_of (it : string) : si_kind * si_fault option =
     | "c" -> SiKCache (has "mem", fault = Some "badredis",
                        has "marker" || fault = Some "nomarker" || fault = Some "badmarker")
     | "s" -> SiKSrv (match kind with
-        | "udp" -> SiSrvUdp | "tcp" -> SiSrvTcp | "gnet" -> SiSrvGnet | "http" -> SiSrvHttp
-        | "fasthttp" -> SiSrvFast | "tls" -> SiSrvTls | "https" -> SiSrvHttps | "quic" -> SiSrvQuic
+        | "udp" | "udp1" -> SiSrvUdp | "udp2" -> SiSrvUdpN | "tcp" -> SiSrvTcp | "gnet" -> SiSrvGnet
+        | "http" -> SiSrvHttp | "fasthttp" -> SiSrvFast | "tls" -> SiSrvTls | "https" -> SiSrvHttps
+        | "quic" -> SiSrvQuic
         | _ -> failwith ("startcfg: unknown listener kind " ^ kind))
     | _ -> failwith ("startcfg: unknown item " ^ it) in
-  (k, match fault with Some f -> Some (si_fault_of f) | None -> None)
+  let f = match fault with
+    | Some "rtr" -> Some (SfHeldByRouter rp)
+    | Some f -> Some (si_fault_of f)
+    | None -> None in
+  ((k, f), (rp, client <> None))
 
 let run_startcfg (parts : string list) : string =
   let f = fields parts in
-  let items = List.map si_item_of (List.filter (fun s -> s <> "") (String.split_on_char ';' (fld f "cfg"))) in
+  let parsed = List.map si_item_of (List.filter (fun s -> s <> "") (String.split_on_char ';' (fld f "cfg"))) in
+  let items = List.map fst parsed in
   let pinned = (fld_opt f "pinned" = Some "1") in
   let ((err, socks), gor) = si_observe pinned items in
   let socks = int_of_nat socks in
   let safe = List.for_all (fun (k, _) -> si_safeb (si_prog_of pinned k)) items in
   let must_err = (si_first_fault items O <> None) in
+  (* an address held by another instance must be refused unless so_reuseport is configured explicitly *)
+  let shares = List.exists (fun ((k, fo), (rp, _)) ->
+      match fo with Some (SfHeldByRouter _) -> si_must_refuse k rp && not (si_refuses k rp) | _ -> false) parsed in
+  let closes = si_close_returns (List.map (fun ((k, _), (_, cl)) -> (k, cl)) parsed) in
   let spec_bits =
     (if socks = 0 && not gor then [] else ["acquired-resource-neither-registered-nor-released"])
     @ (if safe then [] else ["unsafe-init-program"])
-    @ (if err = must_err then [] else ["error-not-reported"]) in
+    @ (if err = must_err then [] else ["error-not-reported"])
+    @ (if shares then ["second-instance-not-refused"] else [])
+    @ (if closes then [] else ["closer-waits-for-a-peer"]) in
   let spec = if spec_bits = [] then "ok" else "FAIL:" ^ String.concat "+" spec_bits in
-  if fld_opt f "mode" = Some "bin" then
+  if (not err) && not closes then
+    Printf.sprintf "HANG router close did not return within 3s || spec=%s" spec
+  else if fld_opt f "mode" = Some "bin" then
     Printf.sprintf "res=%s sock=- fd=- gor=- || spec=%s" (if err then "ERR" else "OK") spec
   else
     Printf.sprintf "res=%s sock=%d fd=0 gor=%d || spec=%s" (if err then "ERR" else "OK") socks (if gor then 1 else 0) spec
